@@ -183,6 +183,12 @@ func (s *Server) serveMsgBy(
 	// cycle per packet (a cheap amplification vector that also pollutes
 	// the panic metric).
 	if len(r.Question) != 1 {
+		// The guard runs ahead of the chain, so it asks the access list's
+		// question itself: an excluded source gets no reply, malformed
+		// query or not.
+		if !s.AdmitsSource(w) {
+			return
+		}
 		formerr := new(dns.Msg)
 		formerr.SetRcode(r, dns.RcodeFormatError)
 		_ = w.WriteMsg(formerr)
@@ -204,6 +210,32 @@ func (s *Server) serveMsgBy(
 		ch.AllowDirectPack()
 	}
 	ch.Next(ctx)
+}
+
+// AdmitsSource reports whether the pipeline's source gates (the access
+// list) allow the client behind w to be answered at all. It exists for
+// the replies produced ahead of the chain — this entry's QDCOUNT guard and
+// the engines' in-place NOTIMP/FORMERR rejections — and reads the source
+// the way the chain's own writer does.
+func (s *Server) AdmitsSource(w middleware.Transport) bool {
+	if s.pipeline == nil {
+		return true
+	}
+	if i, ok := w.(interface{ Internal() bool }); ok && i.Internal() {
+		return true
+	}
+	var ip net.IP
+	switch a := w.RemoteAddr().(type) {
+	case *net.UDPAddr:
+		if a != nil {
+			ip = a.IP
+		}
+	case *net.TCPAddr:
+		if a != nil {
+			ip = a.IP
+		}
+	}
+	return s.pipeline.AdmitsSource(ip)
 }
 
 // ServeHTTP implements http.Handler (DoH + DoH3).
